@@ -14,9 +14,9 @@
 
 enum { S_PLAIN, S_CANCEL_BEFORE_SUBMIT, S_CANCEL_BEHIND_GATE, S_CANCEL_WHILE_RUNNING, S_N };
 static const char *const s_names[] = { "plain(race)", "cancel-before-submit", "cancel-behind-gate", "cancel-while-running" };
-enum { SUB_ASYNC, SUB_SYNC, SUB_GROUP_ASYNC, SUB_DIRECT, SUB_BARRIER_ASYNC, SUB_BARRIER_SYNC, SUB_ASYNC_AND_WAIT, SUB_AFTER, SUB_GROUP_NOTIFY, SUB_N };
-#define SUB_IS_SYNC(s) ((s) == SUB_SYNC || (s) == SUB_DIRECT || (s) == SUB_BARRIER_SYNC || (s) == SUB_ASYNC_AND_WAIT)
-static const char *const sub_names[] = { "async", "sync", "group_async", "direct-invocation", "barrier_async", "barrier_sync", "async_and_wait", "dispatch_after", "group_notify" };
+enum { SUB_ASYNC, SUB_SYNC, SUB_GROUP_ASYNC, SUB_DIRECT, SUB_BARRIER_ASYNC, SUB_BARRIER_SYNC, SUB_ASYNC_AND_WAIT, SUB_AFTER, SUB_GROUP_NOTIFY, SUB_BARRIER_ASYNC_AND_WAIT, SUB_N };
+#define SUB_IS_SYNC(s) ((s) == SUB_SYNC || (s) == SUB_DIRECT || (s) == SUB_BARRIER_SYNC || (s) == SUB_ASYNC_AND_WAIT || (s) == SUB_BARRIER_ASYNC_AND_WAIT)
+static const char *const sub_names[] = { "async", "sync", "group_async", "direct-invocation", "barrier_async", "barrier_sync", "async_and_wait", "dispatch_after", "group_notify", "barrier_async_and_wait" };
 
 typedef struct { uint64_t reg_call, reg_ret, start; _Atomic uint32_t runs; struct bcase *c; } bntf_t;
 typedef struct { uint64_t call, ret, deadline, now_after; int rc; uint8_t timed, clk; } bwait_t;
@@ -189,6 +189,7 @@ static void run_case(bdrv_t *d, int ci)
 	case SUB_GROUP_ASYNC: dispatch_group_async(t->grp, q, c->b); break;
 	case SUB_BARRIER_SYNC: dispatch_barrier_sync(q, c->b); break;
 	case SUB_ASYNC_AND_WAIT: dispatch_async_and_wait(q, c->b); break;
+	case SUB_BARRIER_ASYNC_AND_WAIT: dispatch_barrier_async_and_wait(q, c->b); break;
 	case SUB_AFTER: dispatch_after(dispatch_time(DISPATCH_TIME_NOW, (int64_t)vf_rnd_n(r, 1500000)), q, c->b); break;
 	case SUB_GROUP_NOTIFY: dispatch_group_notify(t->empty_grp, q, c->b); break;   /* an empty group: submitted at once */
 	default: c->b(); break;
